@@ -37,9 +37,17 @@ const (
 	ABurst
 	ASetPool
 	AClose
+	ARebuild // replace the file at the same path by an index of other content (only while no handle is open on it)
 )
 
-var actName = []string{"open", "query", "prepare+query", "burst", "setpool", "close"}
+var actName = []string{"open", "query", "prepare+query", "burst", "setpool", "close", "rebuild"}
+
+// Broken file kinds.
+const (
+	BOK            = iota
+	BMissing       // the path does not exist: every use of a handle must return an error
+	BGarbageBitmap // one bitmap undecodable: opening with preload must return an error
+)
 
 var optStrings = []string{"", "preload=true", "lrucache=true&lrucachesize=1048576", "preload=true&lrucache=true&lrucachesize=0"}
 
@@ -61,6 +69,8 @@ type Q struct {
 
 type Case struct {
 	Files   []gen.DataSpec
+	Alt     []gen.DataSpec // content a rebuild puts at the same path
+	Broken  []int
 	Queries [][]Q
 	Acts    []Act
 }
@@ -68,7 +78,7 @@ type Case struct {
 func (c *Case) Summary() string {
 	var b strings.Builder
 	for i := range c.Files {
-		fmt.Fprintf(&b, "file%d=%s ", i, c.Files[i].Summary())
+		fmt.Fprintf(&b, "file%d(%s)=%s ", i, []string{"ok", "MISSING", "one-garbage-bitmap"}[c.broken(i)], c.Files[i].Summary())
 	}
 	b.WriteString("history:")
 	for _, a := range c.Acts {
@@ -79,11 +89,20 @@ func (c *Case) Summary() string {
 			fmt.Fprintf(&b, " burst(h%d,%d goroutines,q%d)", a.Slot, a.N, a.Q)
 		case ASetPool:
 			fmt.Fprintf(&b, " setpool(h%d,open=%d,idle=%d)", a.Slot, a.MaxOpen, a.MaxIdle)
+		case ARebuild:
+			fmt.Fprintf(&b, " rebuild(file%d)", a.File)
 		default:
 			fmt.Fprintf(&b, " %s(h%d,q%d)", actName[a.Kind], a.Slot, a.Q)
 		}
 	}
 	return b.String()
+}
+
+func (c *Case) broken(i int) int {
+	if i < len(c.Broken) {
+		return c.Broken[i]
+	}
+	return BOK
 }
 
 type handle struct {
@@ -119,6 +138,7 @@ func released(path string) error {
 }
 
 type facts struct {
+	rebuilt          bool
 	reopenAfterClose bool
 	burstFresh       bool
 	twoOptsAtOnce    bool
@@ -137,7 +157,26 @@ func oracle(c *Case) (facts, error) {
 			return f, fmt.Errorf("INFRA: %v", err)
 		}
 		paths[i], datas[i] = p, model.NewData(rows)
+		switch c.broken(i) {
+		case BMissing:
+			os.Remove(p)
+		case BGarbageBitmap:
+			db, err := bbolt.Open(p, 0o644, nil)
+			if err != nil {
+				return f, fmt.Errorf("INFRA: %v", err)
+			}
+			db.Update(func(tx *bbolt.Tx) error {
+				b := tx.Bucket([]byte("data"))
+				k, _ := b.Cursor().Seek([]byte("V"))
+				if k != nil && k[0] == 'V' {
+					return b.Put(append([]byte(nil), k...), []byte{0xde, 0xad, 0xbe, 0xef, 9, 9, 9, 9})
+				}
+				return nil
+			})
+			db.Close()
+		}
 	}
+	useAlt := make([]bool, len(c.Files))
 	handles := map[int]*handle{}
 	openCount := make([]int, len(c.Files))
 	closedOnce := map[string]bool{} // dsn that was opened and fully closed before
@@ -175,6 +214,18 @@ func oracle(c *Case) (facts, error) {
 		if fix.IsPanic(err) {
 			return err
 		}
+		switch c.broken(h.file) {
+		case BMissing:
+			if err == nil {
+				return fmt.Errorf("query %+q on a handle whose file does not exist returned rows", text)
+			}
+			return nil
+		case BGarbageBitmap:
+			if strings.Contains(optStrings[h.opt], "preload") && err == nil && len(datas[h.file].Columns()) > 0 {
+				return fmt.Errorf("query %+q on a preloading handle over a file with an undecodable bitmap returned rows", text)
+			}
+			return nil // without preload the outcome is not specified; only hangs and panics count
+		}
 		d := datas[h.file]
 		if d.Rejects(q.Expr, q.GroupBy) {
 			if err == nil {
@@ -205,7 +256,7 @@ func oracle(c *Case) (facts, error) {
 		if !stillOpen {
 			closedOnce[dsnOf(h.file, h.opt)] = true
 		}
-		if openCount[h.file] == 0 {
+		if openCount[h.file] == 0 && c.broken(h.file) != BMissing {
 			if err := released(paths[h.file]); err != nil {
 				return fmt.Errorf("after Close(h%d): %v", slot, err)
 			}
@@ -282,6 +333,21 @@ func oracle(c *Case) (facts, error) {
 				h.db.SetMaxOpenConns(a.MaxOpen)
 				h.db.SetMaxIdleConns(a.MaxIdle)
 			}
+		case ARebuild:
+			if a.File >= len(c.Files) || openCount[a.File] != 0 || c.broken(a.File) != BOK || a.File >= len(c.Alt) {
+				continue
+			}
+			useAlt[a.File] = !useAlt[a.File]
+			spec := &c.Files[a.File]
+			if useAlt[a.File] {
+				spec = &c.Alt[a.File]
+			}
+			os.Remove(paths[a.File])
+			if _, err := fix.BuildAt(paths[a.File], spec.Rows(), fix.WMemFile); err != nil {
+				return f, fmt.Errorf("INFRA: rebuild: %v", err)
+			}
+			datas[a.File] = model.NewData(spec.Rows())
+			f.rebuilt = true
 		case AClose:
 			if handles[a.Slot] == nil {
 				continue
@@ -318,6 +384,15 @@ func run(t interface{ Fatalf(string, ...any) }, c *Case) {
 	if f.twoOptsAtOnce {
 		cl = append(cl, "two-option-strings-on-one-file-at-once")
 	}
+	if f.rebuilt {
+		cl = append(cl, "file-rebuilt-at-same-path")
+	}
+	for i := range c.Files {
+		if c.broken(i) != BOK {
+			cl = append(cl, "broken-file")
+			break
+		}
+	}
 	evid.Case(f.reopenAfterClose || f.burstFresh, c.Summary(), cl...)
 	if err != nil {
 		if _, hung := err.(*hangError); hung || strings.Contains(err.Error(), "does not complete") {
@@ -343,6 +418,25 @@ func drawCase(t *rapid.T, maxActs int) *Case {
 			spec = gen.Explicit(t, gen.DataOpts{MaxRows: 20, IdentCols: true})
 		}
 		c.Files = append(c.Files, *spec)
+		// the alternative content has the same shape (same number of rows, same
+		// columns) but other values: a rebuilt file of similar size
+		alt := gen.DataSpec{}
+		for _, r := range spec.Rows() {
+			nr := model.Row{}
+			for k, v := range r {
+				nr[k] = v + "'"
+			}
+			alt.Explicit = append(alt.Explicit, nr)
+		}
+		if spec.Recipe != nil {
+			alt = *spec // large files: rebuild with identical content (still a new file)
+		}
+		c.Alt = append(c.Alt, alt)
+		b := BOK
+		if rapid.IntRange(0, 7).Draw(t, "broken") == 0 {
+			b = rapid.IntRange(BMissing, BGarbageBitmap).Draw(t, "brokenkind")
+		}
+		c.Broken = append(c.Broken, b)
 		d := model.NewData(spec.Rows())
 		pool := gen.NewLeafPool(d)
 		var qs []Q
@@ -394,7 +488,17 @@ func drawCase(t *rapid.T, maxActs int) *Case {
 		default:
 			c.Acts = append(c.Acts, Act{Kind: AClose, Slot: slot})
 			closedDSN = append(closedDSN, open[slot])
+			f := open[slot][0]
 			delete(open, slot)
+			still := false
+			for _, o := range open {
+				if o[0] == f {
+					still = true
+				}
+			}
+			if !still && rapid.IntRange(0, 2).Draw(t, "rebuild") == 0 {
+				c.Acts = append(c.Acts, Act{Kind: ARebuild, File: f})
+			}
 		}
 	}
 	return c
